@@ -13,6 +13,7 @@ import (
 	"math/big"
 	"runtime/debug"
 	"sort"
+	"sync"
 
 	"github.com/youchainhq/go-youchain/common"
 	"github.com/youchainhq/go-youchain/core/types"
@@ -66,6 +67,8 @@ func txs(b int) []*types.Transaction {
 	if b == 0 {
 		b = 99
 	}
+	cacheMu.Lock()
+	defer cacheMu.Unlock()
 	if t, ok := txCache[b]; ok {
 		return t
 	}
@@ -75,6 +78,7 @@ func txs(b int) []*types.Transaction {
 }
 
 var (
+	cacheMu    sync.Mutex // the dlloop driver builds worlds concurrently
 	txCache    = map[int][]*types.Transaction{}
 	chainCache = map[string][]*types.Header{}
 	hashCache  = map[string][]common.Hash{}
@@ -99,9 +103,13 @@ func newWorld(op *Op, seed int64) *world {
 		w.maxc = 2
 	}
 	key := fmt.Sprint(w.origin, w.n, w.fl, w.ff, w.body)
-	if hs, ok := chainCache[key]; ok {
+	cacheMu.Lock()
+	hs, cached := chainCache[key]
+	if cached {
 		w.headers, w.hlist, w.orig = hs, hashCache[key], origCache[key]
-	} else {
+	}
+	cacheMu.Unlock()
+	if !cached {
 		w.orig = (&types.Header{Number: new(big.Int).SetUint64(w.origin), Extra: []byte("verif-origin")}).Hash()
 		mk := func(id, num int, parent common.Hash, extra string) *types.Header {
 			h := &types.Header{ParentHash: parent, Number: new(big.Int).SetUint64(w.origin + uint64(num)), GasLimit: 8000000,
@@ -134,7 +142,9 @@ func newWorld(op *Op, seed int64) *world {
 			parent = h.Hash()
 			w.hlist = append(w.hlist, parent)
 		}
+		cacheMu.Lock()
 		chainCache[key], hashCache[key], origCache[key] = w.headers, w.hlist, w.orig
+		cacheMu.Unlock()
 	}
 	for k, h := range w.hlist {
 		w.hashes[h] = k + 1
